@@ -27,6 +27,9 @@ CHECKS = {
  "C06": ("exploration", "runtime monitoring: build histories over one shared cache compared step by step with fresh-cache reference builds; hook-counted compile actions on unchanged rebuilds",
   "Histories of garble builds (15-config alphabet: flags, seeds, GOGARBLE scopes, control flow, tags, -ldflags=-X with and without -literals; edits: comment, leaf body, main body, new file) run over one GOCACHE/GARBLE_CACHE; after every step sha256 and stdout must equal a reference build of the same config and source version from a cache that never saw the program; every second step is repeated unchanged and must run zero compile/asm actions.",
   "References reuse an obfuscated std closure for their config; sha256 equality relies on reproducibility (C03)."),
+ "C07": ("fault_enumeration", "runtime monitoring with fault injection: enumerated damage (delete/empty/truncate) to the cache files a real build created, then rebuild and compare with a fresh-cache build",
+  "The cache files created by building a 4-package program (reflection facts flowing through three packages, one assembly package) are enumerated; every GARBLE_CACHE entry, sampled (quick) or all (thorough) GOCACHE entries of the build, the patched linker and its stamp are each deleted, emptied, truncated to half and to one byte; all 15 non-empty subsets of four entries from different stores, whole-directory deletions and corrupt trim files are applied as well; after each plan a package is edited and the rebuild's exit status, sha256 and stdout (reflected names, assembly results) must equal a fresh-cache build.",
+  "Faults are the statement's classes (missing, empty, truncated); size-preserving corruption is out of scope; each plan runs on its own copy of the cache."),
  "C08": ("exploration", "runtime monitoring: differential execution of generated reflection programs, repeated re-obfuscation as schedule (map-order) sampling; in-process differential test of the injected replacer",
   "Generated programs send fresh struct types of 8 shapes along 19 flow paths to reflecting sinks (TypeOf/ValueOf walks, json, fmt, FieldByName); each program is re-obfuscated R times with fresh action IDs and map orders and every case line must equal the regular build's line in all R builds. The replacer injected into binaries is compared with strings.NewReplacer on generated pair tables.",
   "Package qualifiers are stripped (not promised); two flow classes are listed known findings (fmt verbs, package-level any variable)."),
